@@ -79,7 +79,8 @@ def read_stdlib():
 def st(kind, path=(), names=(), level=0, tc=False, pos="PModule", alias=None, tc_else=False, join_next=False, guard=None,
        guard_pos="if"):
     """guard: a condition that mentions TYPE_CHECKING (nested tuples, see guard_text); the statement stands in the body of
-    `if <guard>:` (guard_pos 'if'), of `elif <guard>:` after a false `if`, or in the else branch of `if <guard>:`."""
+    `if <guard>:` (guard_pos 'if'), of `elif <guard>:` after a false `if`, in the else branch of `if <guard>:` ('else') or in an
+    `elif FLAG:` branch of `if <guard>:` ('orelif')."""
     return dict(kind=kind, path=tuple(path), names=[(n if isinstance(n, tuple) else (n, n)) for n in names], level=level,
                 tc=tc, pos=pos, alias=alias, tc_else=tc_else, join_next=join_next, guard=guard, guard_pos=guard_pos)
 
@@ -93,6 +94,10 @@ def guard_text(g, top=True, oracle=False):
         return "TYPE_CHECKING" if oracle else "typing.TYPE_CHECKING"
     if k == "flag":
         return "FLAG" if g[1] else "NOFLAG"
+    if k == "const":
+        return "True" if g[1] else "False"
+    if k == "paren":                      # an extra pair of parentheses (the model looks through them)
+        return "(" + guard_text(g[1], True, oracle) + ")"
     if k == "not":
         t = "not " + guard_text(g[1], False, oracle)
     else:
@@ -109,6 +114,10 @@ def guard_coq(g):
         return "GTcAttr"
     if k == "flag":
         return "(GFlag %s)" % ("true" if g[1] else "false")
+    if k == "const":
+        return "(GConst %s)" % ("true" if g[1] else "false")
+    if k == "paren":
+        return guard_coq(g[1])
     if k == "not":
         return "(GNot %s)" % guard_coq(g[1])
     c = {"and": "GAnd", "or": "GOr", "eq": "GEq", "is": "GEq", "ne": "GNe", "isnot": "GNe"}[k]
@@ -128,8 +137,8 @@ def tc_terms(s):
         t = "true" if s["tc"] else "false"
         return t, t
     g = guard_coq(s["guard"])
-    if s["guard_pos"] == "else":
-        return "false", "(eval_guard %s)" % g
+    if s["guard_pos"] in ("else", "orelif"):
+        return "(model_tc_else %s)" % g, "(spec_tc_else %s)" % g
     return "(model_tc %s)" % g, "(spec_tc %s)" % g
 
 
@@ -220,6 +229,8 @@ def render_module(m, oracle=False):
                 out = ["if %s:" % cond] + inner
             elif s["guard_pos"] == "elif":
                 out = ["if NOFLAG:", "    pass", "elif %s:" % cond] + inner
+            elif s["guard_pos"] == "orelif":
+                out = ["if %s:" % cond, "    pass", "elif FLAG:"] + inner
             else:
                 out = ["if %s:" % cond, "    pass", "else:"] + inner
         elif s["tc_else"]:
@@ -1006,12 +1017,15 @@ def main(tier):
         "disagreements_checked": n_diff_spec + n_model_mismatch + oracle_bad + n_order + xstats.get("diff_spec", 0),
         "spec_vs_cpython_mismatches": oracle_bad + xstats.get("oracle_bad", 0),
         "second_part": dict(xstats, rule="analysis options (include_stdlib / include_third_party / follow_relative / exclude pattern) against "
-                            "Deps/ImportsOpt.v; conditions mentioning TYPE_CHECKING in and/or/==/is/not at if / elif / else against Deps/TcGuard.v and "
-                            "python3; namespace packages (also through AnalyzeProject with the options of `pyscn check`); import root below the "
+                            "Deps/ImportsOpt.v; conditions mentioning TYPE_CHECKING in and/or/==/is/not/parentheses with the literals True/False and unknown "
+                            "names, the statement in the body, the else or a later elif branch, against Deps/TcGuard.v (runtimeValue) and "
+                            "python3; namespace packages with the default options and with those of `pyscn check` (also through AnalyzeProject): "
+                            "the same graph, Python's; import root below the "
                             "project root with each of the five marker files; wildcard re-exports; modules named like stdlib modules; m.py next "
                             "to m/; files that do not parse; projects without refactoring candidates; on every project of both parts the "
                             "derived outputs (root/leaf modules, direct/transitive dependencies, dependents, risk level, coupling averages, "
-                            "main-sequence deviation, refactoring candidates) decided on the reported graph"),
+                            "main-sequence deviation, refactoring candidates) decided on the reported graph. Repaired and now plain violations: F63 "
+                            "(guards), F62 (namespace packages without include_third_party), F65 (m.py next to m/)"),
     })
     ck.trusted += ["Coq 8.16.1 kernel, vm_compute for model/spec evaluation",
                    "translator /verif/translator gen_imports.go (stdlib table, analysis option defaults)",
